@@ -21,6 +21,9 @@ func TestBodyBound(t *testing.T) {
 		for _, kind := range []string{"bytes", "string", "legacy", "list"} {
 			for _, l := range []int{0, 1, 2, 3, 4, 5, 31, 200, 70000} {
 				m := MsgSpec{Kind: kind, Unknown: seed%2 == 0, Seed: seed, Len: l}
+				if kind == "list" && seed%3 == 0 {
+					m.Entries = 40
+				}
 				if got := len(m.Body()); got > m.bodyBound() {
 					t.Fatalf("%s len %d seed %d: body %d > bound %d", kind, l, seed, got, m.bodyBound())
 				}
